@@ -23,6 +23,12 @@ R_SERVER = atom('reason:server disconnect')
 DISC = A('disconnect')
 
 
+def session_gone(st, e, ns):
+    """the user session saved for (transport e, namespace ns) no longer exists"""
+    ss = st.get(*SESS)
+    return z3.Not(z3.And(ss.c['dom'][e], ss.c['.dom'][e][ns]))
+
+
 def forgotten(pre, post, ns, sid):
     """the manager keeps nothing of (ns, sid); everything else is untouched"""
     n, s, k = z3.Consts('fg_n fg_s fg_k', V)
@@ -70,14 +76,15 @@ def handle_disconnect_contract(world, target):
         d.update(disconnect_dispatched(c, c.pre, c.post, ns, sid_of(c),
                                        lambda r: r == z3.If(smt.truthy(c.a.reason), c.a.reason, R_CLIENT)))
         d['nothing-sent'] = sv_equiv(c.post.get(*OUT), c.pre.get(*OUT))
+        d['user-session-destroyed@C16'] = session_gone(c.post, c.a.eio_sid, ns)
         return d
     return Contract(
         target=target, schema=world, self_obj='server', params={'eio_sid': 'V', 'namespace': 'V', 'reason': 'V'},
         requires=lambda c: dict(base_req(c), **{'dom.ns-not-star': eff_ns(c.a.namespace) != c13.STAR}),
-        cases=[Case('connected', when=conn, post=gone),
-               Case('connected.handler-raises', when=conn, kind='raise', exc='Exception', post=gone),
+        cases=[Case('connected', when=conn, post=gone, residual=lambda c: {'user-session-destroyed@C16': z3.BoolVal(True)}),
+               Case('connected.handler-raises', when=conn, kind='raise', exc='Exception', post=gone, residual=lambda c: {'user-session-destroyed@C16': z3.BoolVal(True)}),
                Case('not-connected', when=lambda c: z3.Not(conn(c)), update=lambda c: None)],
-        modifies=[ROOMS, CBS, PEND, DISP, CALLS], props=['C04', 'C11', 'C20'],
+        modifies=[ROOMS, CBS, PEND, DISP, CALLS], props=['C04', 'C11', 'C20', 'C16'],
         must_fail=lambda c: {'connected:claims-still-member': member(c.post, eff_ns(c.a.namespace), NONE, sid_of(c))})
 
 
@@ -92,14 +99,15 @@ def disconnect_contract(world, target):
         d.update(disconnect_dispatched(c, c.pre, c.post, ns, sid, lambda r: r == R_SERVER))
         for k, v in out_one(c.pre, c.post, e, lambda get: z3.And(get('ptype') == DISCONNECT_T, get('ns') == ns, get('id') == NONE, get('data') == NONE)).items():
             d['client-told.' + k] = v
+        d['user-session-destroyed@C16'] = session_gone(c.post, e, ns)
         return d
     return Contract(
         target=target, schema=world, self_obj='server', params={'sid': 'V', 'namespace': 'V', 'ignore_queue': 'V'},
         requires=lambda c: dict(base_req(c), **{'dom.ns-not-star': eff_ns(c.a.namespace) != c13.STAR}),
-        cases=[Case('connected', when=conn, post=gone),
-               Case('connected.handler-raises', when=conn, kind='raise', exc='Exception', post=gone),
+        cases=[Case('connected', when=conn, post=gone, residual=lambda c: {'user-session-destroyed@C16': z3.BoolVal(True)}),
+               Case('connected.handler-raises', when=conn, kind='raise', exc='Exception', post=gone, residual=lambda c: {'user-session-destroyed@C16': z3.BoolVal(True)}),
                Case('not-connected', when=lambda c: z3.Not(conn(c)), update=lambda c: None)],
-        modifies=[ROOMS, CBS, PEND, DISP, CALLS, OUT, ('g', 'raw')], props=['C04', 'C11', 'C20'],
+        modifies=[ROOMS, CBS, PEND, DISP, CALLS, OUT, ('g', 'raw')], props=['C04', 'C11', 'C20', 'C16'],
         must_fail=lambda c: {'connected:claims-still-member': member(c.post, eff_ns(c.a.namespace), NONE, c.a.sid)})
 
 
@@ -546,3 +554,51 @@ _register2 = register
 def register(reg):
     _register2(reg)
     register3(reg)
+
+
+# ============================================================================ user sessions (C16)
+def session_contracts(world, m_, c_):
+    def cell(c):
+        ns = eff_ns(c.a.namespace)
+        return transport(c.pre, ns, c.a.sid), ns
+
+    def others_kept(c):
+        e, ns = cell(c)
+        s0, s1 = c.pre.get(*SESS), c.post.get(*SESS)
+        x, y = z3.Consts('se_x se_y', V)
+        return z3.ForAll([x, y], z3.Implies(z3.Not(z3.And(x == e, y == ns)),
+                                            z3.And(z3.And(s1.c['dom'][x], s1.c['.dom'][x][y]) == z3.And(s0.c['dom'][x], s0.c['.dom'][x][y]),
+                                                   z3.Implies(z3.And(s0.c['dom'][x], s0.c['.dom'][x][y]), s1.c['..'][x][y] == s0.c['..'][x][y]))))
+    is_conn = lambda c: member(c.pre, eff_ns(c.a.namespace), NONE, c.a.sid)
+
+    def got(c):
+        e, ns = cell(c)
+        s0, s1 = c.pre.get(*SESS), c.post.get(*SESS)
+        had = z3.And(s0.c['dom'][e], s0.c['.dom'][e][ns])
+        return {'returns-the-session-of-this-client-and-namespace': z3.And(s1.c['dom'][e], s1.c['.dom'][e][ns], c.res_v() == s1.c['..'][e][ns]),
+                'what-was-saved-is-what-is-returned': z3.Implies(had, c.res_v() == s0.c['..'][e][ns]),
+                'a-new-session-starts-empty': z3.Implies(z3.Not(had), z3.And(smt.kind(c.res_v()) == smt.K_DICT, smt.vlen(c.res_v()) == 0)),
+                'no-other-session-touched': others_kept(c)}
+
+    def saved(c):
+        e, ns = cell(c)
+        s1 = c.post.get(*SESS)
+        return {'saved-under-this-client-and-namespace': z3.And(s1.c['dom'][e], s1.c['.dom'][e][ns], s1.c['..'][e][ns] == c.a.session),
+                'no-other-session-touched': others_kept(c)}
+    req = lambda c: dict(struct(c.pre), **{'client-is-connected': is_conn(c)})
+    return [
+        Contract(target='%s.%s.get_session' % (m_, c_), schema=world, self_obj='server', params={'sid': 'V', 'namespace': 'V'},
+                 requires=req, cases=[Case('session', result='V', post=got)], modifies=[SESS], props=['C16']),
+        Contract(target='%s.%s.save_session' % (m_, c_), schema=world, self_obj='server', params={'sid': 'V', 'session': 'V', 'namespace': 'V'},
+                 requires=req, cases=[Case('saved', post=saved)], modifies=[SESS], props=['C16']),
+    ]
+
+
+_register3 = register
+
+
+def register(reg):
+    _register3(reg)
+    for w, m_, c_ in ((worlds.SERVER, 'server', 'Server'), (worlds.ASYNC_SERVER, 'async_server', 'AsyncServer')):
+        for k in session_contracts(w, m_, c_):
+            reg.add(k)
